@@ -303,9 +303,24 @@ impl Array {
                     .shape()
                     .to_addr_usize()
             {
-                // NOTE: The "length" property is the first element.
-                borrowed_object.properties_mut().storage[0] = JsValue::new(len);
-                return Ok(());
+                // Writing the slot directly is only equivalent to `ArraySetLength` when nothing
+                // has to be truncated, i.e. when no element with an index >= `len` exists. The
+                // array may have grown since the caller read its length (argument coercion in
+                // `splice`, a getter element in `pop`, a constructor returning a longer array in
+                // `Array.of`), so check the storage instead of trusting the caller.
+                let nothing_to_truncate = match &borrowed_object.properties().indexed_properties {
+                    IndexedProperties::DenseI32(dense) => dense.len() as u64 <= len,
+                    IndexedProperties::DenseF64(dense) => dense.len() as u64 <= len,
+                    IndexedProperties::DenseElement(dense) => dense.len() as u64 <= len,
+                    IndexedProperties::SparseElement(_) | IndexedProperties::SparseProperty(_) => {
+                        false
+                    }
+                };
+                if nothing_to_truncate {
+                    // NOTE: The "length" property is the first element.
+                    borrowed_object.properties_mut().storage[0] = JsValue::new(len);
+                    return Ok(());
+                }
             }
         }
 
